@@ -222,7 +222,7 @@ func parseParagraph(input string) (Rules, error) {
 //	[]string{"owner", "@{user_config_dirs}/powerdevilrc{,.@{rand6}}", "rwl", "->", "@{user_config_dirs}/#@{int}"}
 func tokenizeRule(str string) []string {
 	var currentToken strings.Builder
-	isVariable, wasTokPLUS, quoted := false, false, false
+	isVariable, wasTokPLUS, quoted, comment := false, false, false, false
 
 	blockStack := []rune{}
 	tokens := make([]string, 0, len(str)/2)
@@ -236,6 +236,9 @@ func tokenizeRule(str string) []string {
 			escaped = !escaped
 			currentToken.WriteRune(r)
 			continue
+		}
+		if r == '#' && currentToken.Len() == 0 && len(blockStack) == 0 && !quoted {
+			comment = true // The brackets of a trailing comment are plain text
 		}
 		switch {
 		case (r == ' ' || r == '\t') && len(blockStack) == 0 && !quoted:
@@ -260,8 +263,11 @@ func tokenizeRule(str string) []string {
 			}
 			wasTokPLUS = (r == '+')
 
-		case r == '"' && len(blockStack) == 0:
+		case r == '"' && len(blockStack) == 0 && !comment:
 			quoted = !quoted
+			currentToken.WriteRune(r)
+
+		case comment:
 			currentToken.WriteRune(r)
 
 		case slices.Contains(openBlocks, r):
